@@ -25,7 +25,7 @@ import (
 // exact end of the run (synctest.Wait: every delivery goroutine has run);
 // inside the bubble the goroutines are scheduled freely on all Ps.
 func TestVerifCX1Trace(t *testing.T) {
-	tw, err := verifkit.NewTraceWriter(os.Getenv("VERIF_TRACE_OUT"))
+	tw, err := cx1kit.NewTraceLog(os.Getenv("VERIF_TRACE_OUT"))
 	if err != nil {
 		t.Fatal(err)
 	}
@@ -49,10 +49,10 @@ type cx1Slot struct {
 	close func()
 }
 
-func cx1TraceRun(tw *verifkit.TraceWriter, seed int64) {
+func cx1TraceRun(tw *cx1kit.TraceLog, seed int64) {
 	ps := &LocalPubSub{Metrics: &metrics.NullMetrics{}}
 	ps.Start()
-	tw.Reset(nil)
+	tw.Reset()
 	topics := []string{"a", "b"}
 	names := []string{"s1", "s2", "s3", "s4"}
 	var mu sync.Mutex // guards the slot table, the message counter and the stop flags; pubcall is logged under it
